@@ -82,6 +82,9 @@ def build(cid, race=False):
 
 def run_binary(binary, args, env_extra, timeout, cwd):
     env = goenv()
+    # race-detector builds: end the process at the first report, so that it is attributed to the
+    # case in the write-ahead record like any other crash
+    env["GORACE"] = "halt_on_error=1 exitcode=66"
     env.update(env_extra)
     os.makedirs(cwd, exist_ok=True)
     try:
@@ -117,7 +120,7 @@ def classify_replay(rc, out):
         return "fail"
     if rc == 3 or "VERIF-HANG" in out or rc == -999 or "test timed out" in out:
         return "hang"
-    if rc != 0 and ("panic:" in out or "fatal error:" in out or "SIGSEGV" in out):
+    if rc != 0 and ("panic:" in out or "fatal error:" in out or "SIGSEGV" in out or "WARNING: DATA RACE" in out):
         return "crash"
     if rc != 0:
         return "error"
@@ -297,7 +300,7 @@ def run_check(cid, tier, seed):
                 kind = "hang"
             elif "DRIVER-TIMEOUT" in out or "test timed out" in out:
                 kind = "timeout"
-            elif "panic:" in out or "fatal error:" in out or "SIGSEGV" in out:
+            elif "panic:" in out or "fatal error:" in out or "SIGSEGV" in out or "WARNING: DATA RACE" in out:
                 kind = "crash"
             log(f"--- shard {i} exited rc={rc} kind={kind}:")
             log(tail(out, 80))
